@@ -87,6 +87,10 @@ Qed.
 Lemma id_token_is_listed : In (PS "id_token") claims_with_verified.
 Proof. vm_compute. tauto. Qed.
 
+(* invert H only when its left-hand side already is a pair (never reduce a big stuck match) *)
+Ltac pair_same H := lazymatch type of H with (pair _ _) = _ => inversion H; reflexivity end.
+Ltac pair_absurd H := lazymatch type of H with (pair _ _) = _ => now inversion H end.
+
 Section WithHash.
   Variable lhash : pystr -> pystr -> pystr.
 
@@ -146,16 +150,209 @@ Section WithHash.
       + intros v Hv. rewrite strip_verified_none in Hv by apply id_token_is_listed. discriminate.
   Qed.
 
+  (* ---- what an accepted authorization response establishes ---- *)
+  Definition eff_issuer (cfg : rp_cfg) : pystr :=
+    match cf_pi_issuer cfg with Some i => i | None => cf_issuer cfg end.
+
+  Lemma state_param_inv d st : state_param d = Ok st -> assoc (PS "state") d = Some (VStr st).
+  Proof. unfold state_param. destruct (assoc (PS "state") d) as [[| | |s| | |]|]; intro H; inversion H; reflexivity. Qed.
+
+  Lemma verified_nonempty kw ch code atok t now vd :
+    verify_id_token lhash kw ch code atok t now = Ok vd -> exists x r, vd = x :: r.
+  Proof.
+    intro H. apply verify_id_token_stages in H as (signed & _ & _ & _ & Hr & _).
+    destruct (check_required_ok _ _ Hr _ idtoken_iss_required eq_refl) as (v & Hv & _).
+    destruct vd as [|x r]; [discriminate|eauto].
+  Qed.
+
+  Lemma parse_authz_inv c r now d :
+    parse_authz lhash c r now = Ok d -> has_key (PS "error") d = false ->
+    exists d0, from_dict authz_resp_params (r_params r) [] = Ok d0 /\
+      authz_response_verify lhash (svc_kwargs (cl_cfg c)) d0 (r_idt r) now = Ok d /\
+      (forall x idt, assoc (verified_name (PS "id_token")) d = Some (VDict (x :: idt)) ->
+         exists st rec, state_param d = Ok st /\ db_get (cl_db c) st = Ok rec /\
+           forall n, assoc (PS "nonce") rec = Some (VStr n) -> n <> [] -> assoc (PS "nonce") (x :: idt) = Some (VStr n)).
+  Proof.
+    unfold parse_authz. intros H Hne.
+    destruct (r_params r) as [|p ps] eqn:Erp; try discriminate.
+    destruct (from_dict authz_resp_params (p :: ps) []) as [[|y d0]| |] eqn:Ef; try discriminate.
+    destruct (has_key (PS "error") (y :: d0)) eqn:Eerr.
+    - inversion H; subst d. congruence.
+    - apply bind_ok in H as (d1 & Hv & H). apply bind_ok in H as ([] & Hpost & H). inversion H; subst d1.
+      exists (y :: d0). split; [reflexivity|]. split; [exact Hv|].
+      intros x idt Hx. rewrite Hx in Hpost.
+      apply bind_ok in Hpost as (st & Hst & Hpost). apply bind_ok in Hpost as (rec & Hrec & Hpost).
+      exists st, rec. split; [exact Hst|]. split; [exact Hrec|].
+      intros n Hn Hnn. rewrite Hn in Hpost.
+      destruct n as [|c0 n']; [congruence|]. cbn [py_truthy] in Hpost.
+      destruct (assoc (PS "nonce") (x :: idt)) as [v|]; try discriminate.
+      destruct (py_truthy v); try discriminate.
+      destruct (pyval_eqb (VStr (c0 :: n')) v) eqn:E; try discriminate.
+      apply pyval_eqb_vstr_l in E. congruence.
+  Qed.
+
+  Lemma key_not_expires_state : PS "state" <> PS "__expires_at". Proof. intro E; vm_compute in E; discriminate. Qed.
+  Lemma key_not_expires_iss : PS "iss" <> PS "__expires_at". Proof. intro E; vm_compute in E; discriminate. Qed.
+  Lemma key_not_expires_cid : PS "client_id" <> PS "__expires_at". Proof. intro E; vm_compute in E; discriminate. Qed.
+  Lemma key_not_expires_err : PS "error" <> PS "__expires_at". Proof. intro E; vm_compute in E; discriminate. Qed.
+  Lemma key_not_expires_ver : verified_name (PS "id_token") <> PS "__expires_at".
+  Proof. intro E; vm_compute in E; discriminate. Qed.
+
+  Lemma stored_assoc spec d now stored k :
+    with_expires_at (resp_to_dict spec d) now = Ok stored -> k <> PS "__expires_at" ->
+    (match find_spec k spec with Some ps => match ps_type ps with CSpList => false | _ => true end | None => true end) = true ->
+    assoc k stored = assoc k d.
+  Proof.
+    intros H Hne Hk. rewrite (with_expires_at_assoc _ _ _ _ H Hne). apply resp_to_dict_assoc; exact Hk.
+  Qed.
+
+  Theorem step_authz_accept c r now c' stored :
+    step_authz lhash c r now = (c', Ok stored) -> has_key (PS "error") stored = false ->
+    exists st rec,
+      assoc (PS "state") stored = Some (VStr st) /\
+      db_get (cl_db c) st = Ok rec /\
+      assoc (PS "iss") rec = Some (VStr (eff_issuer (cl_cfg c))) /\
+      (forall v, assoc (PS "iss") stored = Some v -> v = VStr (cf_issuer (cl_cfg c))) /\
+      (cf_client_id (cl_cfg c) <> [] ->
+       forall v, assoc (PS "client_id") stored = Some v -> v = VStr (cf_client_id (cl_cfg c))) /\
+      c' = mkClient (cl_cfg c) (db_update (cl_db c) st stored) (cl_map c) /\
+      (forall v, assoc (verified_name (PS "id_token")) stored = Some v ->
+         exists t code atok vd, r_idt r = Some t /\ v = VDict vd /\
+           verify_id_token lhash (svc_kwargs (cl_cfg c)) true code atok t now = Ok vd /\
+           (forall n, assoc (PS "nonce") rec = Some (VStr n) -> n <> [] -> assoc (PS "nonce") vd = Some (VStr n))).
+  Proof.
+    unfold step_authz. intros H Hnoerr.
+    destruct (parse_authz lhash c r now) as [d| |] eqn:Hp; try (pair_absurd H).
+    destruct (has_key (PS "error") d) eqn:Eerr.
+    { inversion H; subst. rewrite resp_to_dict_has_key in Hnoerr. congruence. }
+    destruct (state_param d) as [st| |] eqn:Est; try (pair_absurd H).
+    destruct (db_get (cl_db c) st) as [rec| |] eqn:Erec; try (pair_absurd H).
+    fold (eff_issuer (cl_cfg c)) in H.
+    destruct (negb (option_eqb pyval_eqb (assoc (PS "iss") rec) (Some (VStr (eff_issuer (cl_cfg c)))))) eqn:Eiss;
+      [pair_absurd H|].
+    destruct (with_expires_at (resp_to_dict authz_resp_params d) now) as [st0| |] eqn:Ew; try (pair_absurd H).
+    inversion H; subst c' st0.
+    clear H. apply negb_false_iff in Eiss.
+    destruct (parse_authz_inv _ _ _ _ Hp Eerr) as (d0 & Hf & Hv & Hpost).
+    destruct (authz_response_verify_inv _ _ _ _ _ Hv) as (Hcid & Hissp & Hkeep & Hver).
+    assert (Sstate : assoc (PS "state") stored = assoc (PS "state") d)
+      by (eapply stored_assoc; eauto using key_not_expires_state).
+    assert (Siss : assoc (PS "iss") stored = assoc (PS "iss") d)
+      by (eapply stored_assoc; eauto using key_not_expires_iss).
+    assert (Scid : assoc (PS "client_id") stored = assoc (PS "client_id") d)
+      by (eapply stored_assoc; eauto using key_not_expires_cid).
+    assert (Sver : assoc (verified_name (PS "id_token")) stored = assoc (verified_name (PS "id_token")) d)
+      by (eapply stored_assoc; eauto using key_not_expires_ver).
+    exists st, rec.
+    split; [rewrite Sstate; apply state_param_inv; exact Est|].
+    split; [exact Erec|].
+    split.
+    { destruct (assoc (PS "iss") rec) as [v|]; cbn in Eiss; try discriminate.
+      apply pyval_eqb_vstr_r in Eiss. congruence. }
+    split.
+    { intros v Hv'. rewrite Siss, (Hkeep (PS "iss") eq_refl) in Hv'.
+      unfold param_matches in Hissp. rewrite Hv' in Hissp. cbn [svc_kwargs kw_iss] in Hissp.
+      destruct (pyval_eqb v (VStr (cf_issuer (cl_cfg c)))) eqn:E; try discriminate.
+      now apply pyval_eqb_vstr_r. }
+    split.
+    { intros Hne v Hv'. rewrite Scid, (Hkeep (PS "client_id") eq_refl) in Hv'.
+      unfold param_matches in Hcid. rewrite Hv' in Hcid. cbn [svc_kwargs kw_client_id] in Hcid.
+      destruct (cf_client_id (cl_cfg c)) as [|c0 cid] eqn:Ecid; [congruence|].
+      destruct (pyval_eqb v (VStr (c0 :: cid))) eqn:E; try discriminate.
+      now apply pyval_eqb_vstr_r. }
+    split; [reflexivity|].
+    intros v Hv'. rewrite Sver in Hv'.
+    destruct (Hver v Hv') as (t & code & atok & vd & Ht & -> & _ & _ & Hvd).
+    exists t, code, atok, vd. repeat split; auto.
+    intros n Hn Hnn.
+    destruct (verified_nonempty _ _ _ _ _ _ _ Hvd) as (x & idt & ->).
+    destruct (Hpost x idt Hv') as (st' & rec' & Hst' & Hrec' & Hnonce).
+    rewrite Est in Hst'. inversion Hst'; subst st'. rewrite Erec in Hrec'. inversion Hrec'; subst rec'.
+    apply Hnonce; auto.
+  Qed.
+
+  (* ---- what an accepted token response establishes ---- *)
+  Theorem step_token_accept c st r now c' stored :
+    step_token lhash c st r now = (c', Ok stored) ->
+    exists rec,
+      db_get (cl_db c) st = Ok rec /\
+      cl_cfg c' = cl_cfg c /\
+      cl_db c' = db_update (cl_db c) st stored /\
+      (forall v, assoc (verified_name (PS "id_token")) stored = Some v ->
+         exists t vd n sub, r_idt r = Some t /\ v = VDict vd /\
+           verify_id_token lhash (svc_kwargs (cl_cfg c)) false None None t now = Ok vd /\
+           assoc (PS "nonce") vd = Some (VStr n) /\ assoc n (cl_map c) = Some st /\
+           assoc (PS "sub") vd = Some (VStr sub) /\ cl_map c' = aset sub st (cl_map c)) /\
+      (assoc (verified_name (PS "id_token")) stored = None -> cl_map c' = cl_map c).
+  Proof.
+    unfold step_token. intro H.
+    destruct (db_get (cl_db c) st) as [rec| |] eqn:Erec; try (pair_absurd H).
+    destruct (negb _); [pair_absurd H|].
+    destruct (r_params r) as [|p ps]; [pair_absurd H|].
+    destruct (from_dict token_resp_params (p :: ps) []) as [[|x d]| |]; try (pair_absurd H).
+    destruct (has_key (PS "error") (x :: d)); [pair_absurd H|].
+    destruct (token_response_verify lhash (svc_kwargs (cl_cfg c)) (x :: d) (r_idt r) now) as [d1| |] eqn:Hv;
+      try (pair_absurd H).
+    destruct (token_response_verify_inv _ _ _ _ _ Hv) as (_ & Hver).
+    assert (Sver : forall stored0, with_expires_at (resp_to_dict token_resp_params d1) now = Ok stored0 ->
+              assoc (verified_name (PS "id_token")) stored0 = assoc (verified_name (PS "id_token")) d1).
+    { intros s0 Hs0. eapply stored_assoc; eauto using key_not_expires_ver. }
+    exists rec. split; [reflexivity|].
+    destruct (assoc (verified_name (PS "id_token")) d1) as [v1|] eqn:Ev1.
+    - destruct (Hver v1 eq_refl) as (t & vd & Ht & -> & Hvd).
+      destruct (assoc (PS "nonce") vd) as [[| | |n| | |]|] eqn:En; try (pair_absurd H).
+      destruct (assoc n (cl_map c)) as [s|] eqn:Emap; try (pair_absurd H).
+      destruct (str_eqb s st) eqn:Es; try (pair_absurd H). apply str_eqb_eq in Es. subst s.
+      destruct (assoc (PS "sub") vd) as [[| | |sub| | |]|] eqn:Esub; try (pair_absurd H).
+      destruct (with_expires_at (resp_to_dict token_resp_params d1) now) as [s0| |] eqn:Ew; try (pair_absurd H).
+      inversion H; subst c' s0.
+      cbn [cl_cfg cl_db cl_map]. split; [reflexivity|]. split; [reflexivity|]. split.
+      + intros v Hv'. rewrite (Sver _ eq_refl) in Hv'. inversion Hv'; subst v.
+        exists t, vd, n, sub. repeat split; auto.
+      + intro Hnone. rewrite (Sver _ eq_refl) in Hnone. discriminate.
+    - destruct (with_expires_at (resp_to_dict token_resp_params d1) now) as [s0| |] eqn:Ew; try (pair_absurd H).
+      inversion H; subst c' s0.
+      cbn [cl_cfg cl_db cl_map]. split; [reflexivity|]. split; [reflexivity|]. split.
+      + intros v Hv'. rewrite (Sver _ eq_refl) in Hv'. discriminate.
+      + intros _. reflexivity.
+  Qed.
+
+  Theorem step_userinfo_accept c st u c' d :
+    step_userinfo c st u = (c', Ok d) ->
+    exists rec, db_get (cl_db c) st = Ok rec /\
+      c' = mkClient (cl_cfg c) (db_update (cl_db c) st d) (cl_map c) /\
+      (forall idt s, assoc (verified_name (PS "id_token")) rec = Some (VDict idt) ->
+                     assoc (PS "sub") idt = Some (VStr s) -> assoc (PS "sub") d = Some (VStr s)).
+  Proof.
+    unfold step_userinfo. intro H.
+    destruct (db_get (cl_db c) st) as [rec| |] eqn:Erec; try (pair_absurd H).
+    destruct (negb _); [pair_absurd H|].
+    destruct u as [|p ps]; [pair_absurd H|].
+    destruct (from_dict userinfo_params (p :: ps) []) as [[|x d0]| |]; try (pair_absurd H).
+    destruct (has_key (PS "error") (x :: d0)); [pair_absurd H|].
+    destruct (check_required userinfo_params (x :: d0)); try (pair_absurd H).
+    destruct (_ || _); [pair_absurd H|].
+    exists rec. split; [reflexivity|].
+    destruct (assoc (verified_name (PS "id_token")) rec) as [[| | | | |idt|]|] eqn:Ev; try (pair_absurd H).
+    destruct (assoc (PS "sub") idt) as [s|] eqn:Es.
+      + destruct (option_eqb pyval_eqb (assoc (PS "sub") (x :: d0)) (Some s)) eqn:Eq; try (pair_absurd H).
+        inversion H; subst.
+        split; [reflexivity|]. intros idt' s' Hi Hs'. inversion Hi; subst idt'. rewrite Es in Hs'. inversion Hs'; subst s.
+        destruct (assoc (PS "sub") (x :: d0)) as [v|]; cbn in Eq; try discriminate.
+        apply pyval_eqb_vstr_r in Eq. congruence.
+      + inversion H; subst. split; [reflexivity|]. intros idt' s' Hi Hs'. inversion Hi; subst. congruence.
+  Qed.
+
   (* ---- a refused operation changes nothing (C08: never stored; C09: rejected op changes nothing) ---- *)
   Lemma step_authz_reject c r now c' out :
     step_authz lhash c r now = (c', out) -> (forall d, out <> Ok d) -> c' = c.
   Proof.
     unfold step_authz. intros H Hno.
-    destruct (parse_authz lhash c r now) as [d| |]; try (inversion H; reflexivity).
-    destruct (has_key (PS "error") d); [inversion H; reflexivity|].
-    destruct (state_param d) as [st| |]; try (inversion H; reflexivity).
-    destruct (db_get (cl_db c) st) as [rec| |]; try (inversion H; reflexivity).
-    destruct (negb _); [inversion H; reflexivity|].
+    destruct (parse_authz lhash c r now) as [d| |]; try (pair_same H).
+    destruct (has_key (PS "error") d); [pair_same H|].
+    destruct (state_param d) as [st| |]; try (pair_same H).
+    destruct (db_get (cl_db c) st) as [rec| |]; try (pair_same H).
+    destruct (negb _); [pair_same H|].
     destruct (with_expires_at _ now) as [stored| |]; inversion H; subst; auto.
     exfalso. eapply Hno; reflexivity.
   Qed.
@@ -164,13 +361,13 @@ Section WithHash.
     step_token lhash c st r now = (c', out) -> (forall d, out <> Ok d) -> c' = c.
   Proof.
     unfold step_token. intros H Hno.
-    destruct (db_get (cl_db c) st) as [rec| |]; try (inversion H; reflexivity).
-    destruct (negb _); [inversion H; reflexivity|].
-    destruct (r_params r); [inversion H; reflexivity|].
-    destruct (from_dict token_resp_params _ []) as [[|x d]| |]; try (inversion H; reflexivity).
-    destruct (has_key (PS "error") (x :: d)); [inversion H; reflexivity|].
-    destruct (token_response_verify lhash _ _ _ now) as [d1| |]; try (inversion H; reflexivity).
-    match type of H with (match ?b with _ => _ end) = _ => destruct b as [m| |] end; try (inversion H; reflexivity).
+    destruct (db_get (cl_db c) st) as [rec| |]; try (pair_same H).
+    destruct (negb _); [pair_same H|].
+    destruct (r_params r); [pair_same H|].
+    destruct (from_dict token_resp_params _ []) as [[|x d]| |]; try (pair_same H).
+    destruct (has_key (PS "error") (x :: d)); [pair_same H|].
+    destruct (token_response_verify lhash _ _ _ now) as [d1| |]; try (pair_same H).
+    match type of H with (match ?b with _ => _ end) = _ => destruct b as [m| |] end; try (pair_same H).
     destruct (with_expires_at _ now) as [stored| |]; inversion H; subst; auto.
     exfalso. eapply Hno; reflexivity.
   Qed.
@@ -179,14 +376,443 @@ Section WithHash.
     step_userinfo c st u = (c', out) -> (forall d, out <> Ok d) -> c' = c.
   Proof.
     unfold step_userinfo. intros H Hno.
-    destruct (db_get (cl_db c) st) as [rec| |]; try (inversion H; reflexivity).
-    destruct (negb _); [inversion H; reflexivity|].
-    destruct u; [inversion H; reflexivity|].
-    destruct (from_dict userinfo_params _ []) as [[|x d]| |]; try (inversion H; reflexivity).
-    destruct (has_key (PS "error") (x :: d)); [inversion H; reflexivity|].
-    destruct (check_required userinfo_params (x :: d)); try (inversion H; reflexivity).
-    destruct (_ || _); [inversion H; reflexivity|].
+    destruct (db_get (cl_db c) st) as [rec| |]; try (pair_same H).
+    destruct (negb _); [pair_same H|].
+    destruct u; [pair_same H|].
+    destruct (from_dict userinfo_params _ []) as [[|x d]| |]; try (pair_same H).
+    destruct (has_key (PS "error") (x :: d)); [pair_same H|].
+    destruct (check_required userinfo_params (x :: d)); try (pair_same H).
+    destruct (_ || _); [pair_same H|].
     match type of H with (match ?b with _ => _ end) = _ => destruct b as [[|]| |] end; inversion H; subst; auto.
     exfalso. eapply Hno; reflexivity.
   Qed.
 End WithHash.
+
+(* ================================================================================================
+   several clients: frame conditions and histories (C09)
+   ================================================================================================ *)
+Lemma from_dict_origin spec : forall claims acc d k v,
+  from_dict spec claims acc = Ok d -> assoc k d = Some v ->
+  assoc k acc = Some v \/
+  exists v0, In (k, v0) claims /\
+    match find_spec k spec with
+    | None => v = v0
+    | Some ps => coerce (ps_type ps) v0 = Ok (Some v)
+    end.
+Proof.
+  induction claims as [|[k0 v0] r IH]; intros acc d k v H Hd.
+  - cbn in H. inversion H; subst. left; exact Hd.
+  - cbn [from_dict] in H.
+    assert (Hstep : forall acc', from_dict spec r acc' = Ok d ->
+              (assoc k acc' = Some v -> assoc k acc = Some v \/
+                 (k = k0 /\ match find_spec k spec with None => v = v0 | Some ps => coerce (ps_type ps) v0 = Ok (Some v) end)) ->
+              assoc k acc = Some v \/
+              exists v1, In (k, v1) ((k0, v0) :: r) /\
+                match find_spec k spec with None => v = v1 | Some ps => coerce (ps_type ps) v1 = Ok (Some v) end).
+    { intros acc' H' Hacc. destruct (IH acc' d k v H' Hd) as [Ha|(v1 & Hin & Hm)].
+      - destruct (Hacc Ha) as [Hl|[-> Hm]]; [left; exact Hl|right]. exists v0. split; [left; reflexivity|exact Hm].
+      - right. exists v1. split; [right; exact Hin|exact Hm]. }
+    destruct (is_blank v0); [apply (Hstep acc H); auto|].
+    destruct (find_spec k0 spec) as [ps|] eqn:Ef.
+    + destruct (coerce (ps_type ps) v0) as [[v'|]|e|] eqn:Ec; try discriminate.
+      * apply (Hstep _ H). intro Ha. destruct (str_eqb k0 k) eqn:Ek.
+        -- apply str_eqb_eq in Ek. subst k0. rewrite assoc_aset_same in Ha. inversion Ha; subst v'.
+           right. split; [reflexivity|]. rewrite Ef. exact Ec.
+        -- left. rewrite assoc_aset_other in Ha; auto. intro; subst. rewrite str_eqb_refl in Ek. discriminate.
+      * apply (Hstep acc H); auto.
+    + destruct (existsb (N.eqb 35) k0); try discriminate.
+      apply (Hstep _ H). intro Ha. destruct (str_eqb k0 k) eqn:Ek.
+      * apply str_eqb_eq in Ek. subst k0. rewrite assoc_aset_same in Ha. inversion Ha; subst v.
+        right. split; [reflexivity|]. rewrite Ef. reflexivity.
+      * left. rewrite assoc_aset_other in Ha; auto. intro; subst. rewrite str_eqb_refl in Ek. discriminate.
+Qed.
+
+Lemma coerce_cstr_vstr v0 s : coerce CStr v0 = Ok (Some (VStr s)) -> v0 = VStr s.
+Proof.
+  destruct v0 as [| | | |l| |]; cbn; intro H; try discriminate; try (inversion H; reflexivity).
+  destruct l as [|[] ?]; cbn in H; discriminate.
+Qed.
+
+Lemma has_entry_in k s d : In (k, VStr s) d -> has_entry k (VStr s) d = true.
+Proof.
+  intro H. unfold has_entry. apply existsb_exists. exists (k, VStr s). split; [exact H|].
+  cbn. now rewrite !str_eqb_refl.
+Qed.
+
+Lemma from_dict_cstr_entry spec claims d k s ps :
+  from_dict spec claims [] = Ok d -> assoc k d = Some (VStr s) ->
+  find_spec k spec = Some ps -> ps_type ps = CStr -> has_entry k (VStr s) claims = true.
+Proof.
+  intros H Hd Hf Ht. destruct (from_dict_origin spec claims [] d k _ H Hd) as [Ha|(v0 & Hin & Hm)]; [discriminate|].
+  rewrite Hf, Ht in Hm. apply coerce_cstr_vstr in Hm. subst v0. apply has_entry_in; exact Hin.
+Qed.
+
+Section World.
+  Variable lhash : pystr -> pystr -> pystr.
+
+  (* ---- the shape of every client step: nothing, or an update of the record of the addressed state ---- *)
+  Lemma step_authz_shape c r now c' out :
+    step_authz lhash c r now = (c', out) ->
+    c' = c \/
+    exists st rec stored, db_get (cl_db c) st = Ok rec /\ has_entry (PS "state") (VStr st) (r_params r) = true /\
+      out = Ok stored /\ c' = mkClient (cl_cfg c) (db_update (cl_db c) st stored) (cl_map c).
+  Proof.
+    intro H. destruct out as [stored| |]; try (left; eapply step_authz_reject; eauto; discriminate).
+    destruct (has_key (PS "error") stored) eqn:Eerr.
+    - (* an error response is handed back without touching the state *)
+      left. unfold step_authz in H.
+      destruct (parse_authz lhash c r now) as [d| |]; try (pair_absurd H).
+      destruct (has_key (PS "error") d) eqn:E; [inversion H; reflexivity|].
+      destruct (state_param d) as [st| |]; try (pair_absurd H).
+      destruct (db_get (cl_db c) st) as [rec| |]; try (pair_absurd H).
+      destruct (negb _); [pair_absurd H|].
+      destruct (with_expires_at (resp_to_dict authz_resp_params d) now) as [s0| |] eqn:Ew; try (pair_absurd H).
+      inversion H; subst. exfalso.
+      rewrite (with_expires_at_has_key _ _ _ _ Ew key_not_expires_err), resp_to_dict_has_key in Eerr. congruence.
+    - right. pose proof H as H0. unfold step_authz in H0.
+      destruct (parse_authz lhash c r now) as [d| |] eqn:Hp; try (pair_absurd H0).
+      destruct (has_key (PS "error") d) eqn:E.
+      { inversion H0; subst. rewrite resp_to_dict_has_key in Eerr. congruence. }
+      destruct (parse_authz_inv lhash _ _ _ _ Hp E) as (d0 & Hf & Hv & _).
+      destruct (authz_response_verify_inv lhash _ _ _ _ _ Hv) as (_ & _ & Hkeep & _).
+      destruct (step_authz_accept lhash _ _ _ _ _ H Eerr) as (st & rec & Hst & Hrec & _ & _ & _ & Hc' & _).
+      exists st, rec, stored. repeat split; auto.
+      destruct (state_param d) as [st1| |] eqn:Est; try (pair_absurd H0).
+      destruct (db_get (cl_db c) st1) as [rec1| |]; try (pair_absurd H0).
+      destruct (negb _); [pair_absurd H0|].
+      destruct (with_expires_at (resp_to_dict authz_resp_params d) now) as [s0| |] eqn:Ew; try (pair_absurd H0).
+      inversion H0; subst s0.
+      assert (Hsd : assoc (PS "state") d = Some (VStr st)).
+      { erewrite <- stored_assoc; eauto using key_not_expires_state. }
+      rewrite (Hkeep (PS "state") eq_refl) in Hsd.
+      eapply from_dict_cstr_entry; eauto; reflexivity.
+  Qed.
+
+  Lemma step_token_shape c st r now c' out :
+    step_token lhash c st r now = (c', out) ->
+    c' = c \/
+    exists rec stored, db_get (cl_db c) st = Ok rec /\ out = Ok stored /\ cl_cfg c' = cl_cfg c /\
+      cl_db c' = db_update (cl_db c) st stored /\
+      (cl_map c' = cl_map c \/
+       exists sub t, r_idt r = Some t /\ has_entry (PS "sub") (VStr sub) (t_claims t) = true /\
+                     cl_map c' = aset sub st (cl_map c)).
+  Proof.
+    intro H. destruct out as [stored| |]; try (left; eapply step_token_reject; eauto; discriminate).
+    right. destruct (step_token_accept lhash _ _ _ _ _ _ H) as (rec & Hrec & Hcfg & Hdb & Hver & Hnone).
+    exists rec, stored. repeat split; auto.
+    destruct (assoc (verified_name (PS "id_token")) stored) as [v|] eqn:Ev.
+    - right. destruct (Hver v eq_refl) as (t & vd & n & sub & Ht & _ & Hvd & _ & _ & Hsub & Hmap).
+      exists sub, t. repeat split; auto.
+      apply verify_id_token_stages in Hvd as (_ & _ & _ & Hf & _).
+      eapply from_dict_cstr_entry; eauto; reflexivity.
+    - left. auto.
+  Qed.
+
+  Lemma step_userinfo_shape c st u c' out :
+    step_userinfo c st u = (c', out) ->
+    c' = c \/ exists rec d, db_get (cl_db c) st = Ok rec /\ out = Ok d /\
+                c' = mkClient (cl_cfg c) (db_update (cl_db c) st d) (cl_map c).
+  Proof.
+    intro H. destruct out as [d| |]; try (left; eapply step_userinfo_reject; eauto; discriminate).
+    right. destruct (step_userinfo_accept _ _ _ _ _ H) as (rec & Hrec & Hc' & _). eauto.
+  Qed.
+
+  (* ---- worlds ---- *)
+  Lemma w_set_same (w : list (pystr * client)) i c : assoc i w = Some c -> w_set w i c = w.
+  Proof. apply aset_same_id. Qed.
+
+  Lemma on_client_inv (w : list (pystr * client)) i f w' out :
+    on_client w i f = (w', out) ->
+    (assoc i w = None /\ w' = w /\ out = Err KeyError) \/
+    exists c c', assoc i w = Some c /\ f c = (c', out) /\ w' = w_set w i c'.
+  Proof.
+    unfold on_client. destruct (assoc i w) as [c|]; intro H.
+    - right. destruct (f c) as [c' o] eqn:Ef. inversion H; subst. eauto.
+    - left. inversion H; auto.
+  Qed.
+
+  Lemma rec_of_w_set (w : list (pystr * client)) i c c' j s :
+    assoc i w = Some c -> assoc s (cl_db c') = assoc s (cl_db c) -> rec_of (w_set w i c') j s = rec_of w j s.
+  Proof.
+    intros Hi Hs. unfold rec_of, w_set. destruct (str_eqb i j) eqn:E.
+    - apply str_eqb_eq in E. subst j. rewrite assoc_aset_same, Hi. exact Hs.
+    - rewrite assoc_aset_other; auto. intro; subst. rewrite str_eqb_refl in E. discriminate.
+  Qed.
+  Lemma map_of_w_set (w : list (pystr * client)) i c c' j k :
+    assoc i w = Some c -> assoc k (cl_map c') = assoc k (cl_map c) -> map_of (w_set w i c') j k = map_of w j k.
+  Proof.
+    intros Hi Hs. unfold map_of, w_set. destruct (str_eqb i j) eqn:E.
+    - apply str_eqb_eq in E. subst j. rewrite assoc_aset_same, Hi. exact Hs.
+    - rewrite assoc_aset_other; auto. intro; subst. rewrite str_eqb_refl in E. discriminate.
+  Qed.
+
+  Lemma neq_of_eqb a b : str_eqb a b = false -> b <> a.
+  Proof. intros H E. subst. rewrite str_eqb_refl in H. discriminate. Qed.
+
+  (* every operation leaves the record of every state it does not carry untouched, in every client *)
+  Theorem step_frame_db w o w' out j s :
+    step lhash w o = (w', out) -> op_mentions o s = false -> rec_of w' j s = rec_of w j s.
+  Proof.
+    intros H Hm. destruct o as [i st nonce req|i r now|i st r now|i st u|st r now]; cbn [step op_mentions] in *.
+    - destruct (assoc i w) as [c|] eqn:Ei; inversion H; subst; auto.
+      apply (rec_of_w_set _ _ c); auto. cbn [step_begin cl_db]. apply assoc_aset_other. apply neq_of_eqb in Hm. congruence.
+    - apply on_client_inv in H as [(_ & -> & _)|(c & c' & Hi & Hf & ->)]; auto.
+      apply (rec_of_w_set _ _ c); auto.
+      apply step_authz_shape in Hf as [->|(st & rec & stored & _ & Hst & _ & ->)]; auto.
+      cbn [cl_db]. apply db_update_other. intro E. subst s. congruence.
+    - apply on_client_inv in H as [(_ & -> & _)|(c & c' & Hi & Hf & ->)]; auto.
+      apply (rec_of_w_set _ _ c); auto.
+      apply step_token_shape in Hf as [->|(rec & stored & _ & _ & _ & Hdb & _)]; auto.
+      rewrite Hdb. apply db_update_other. apply neq_of_eqb in Hm. exact Hm.
+    - apply on_client_inv in H as [(_ & -> & _)|(c & c' & Hi & Hf & ->)]; auto.
+      apply (rec_of_w_set _ _ c); auto.
+      apply step_userinfo_shape in Hf as [->|(rec & d & _ & _ & ->)]; auto.
+      cbn [cl_db]. apply db_update_other. apply neq_of_eqb in Hm. exact Hm.
+    - destruct (state2issuer w st) as [[| | |i| | |]|]; try (inversion H; subst; reflexivity).
+      apply on_client_inv in H as [(_ & -> & _)|(c & c' & Hi & Hf & ->)]; auto.
+      apply (rec_of_w_set _ _ c); auto.
+      apply step_token_shape in Hf as [->|(rec & stored & _ & _ & _ & Hdb & _)]; auto.
+      rewrite Hdb. apply db_update_other. apply neq_of_eqb in Hm. exact Hm.
+  Qed.
+
+  (* ... and the key -> state binding of every key it cannot bind *)
+  Theorem step_frame_map w o w' out j k :
+    step lhash w o = (w', out) -> op_may_bind o k = false -> map_of w' j k = map_of w j k.
+  Proof.
+    intros H Hm. destruct o as [i st nonce req|i r now|i st r now|i st u|st r now]; cbn [step op_may_bind] in *.
+    - destruct (assoc i w) as [c|] eqn:Ei; inversion H; subst; auto.
+      apply (map_of_w_set _ _ c); auto. cbn [step_begin cl_map]. apply assoc_aset_other. apply neq_of_eqb in Hm. congruence.
+    - apply on_client_inv in H as [(_ & -> & _)|(c & c' & Hi & Hf & ->)]; auto.
+      apply (map_of_w_set _ _ c); auto.
+      apply step_authz_shape in Hf as [->|(st & rec & stored & _ & _ & _ & ->)]; auto.
+    - apply on_client_inv in H as [(_ & -> & _)|(c & c' & Hi & Hf & ->)]; auto.
+      apply (map_of_w_set _ _ c); auto.
+      apply step_token_shape in Hf as [->|(rec & stored & _ & _ & _ & _ & [->|(sub & t & Ht & Hsub & ->)])]; auto.
+      rewrite Ht in Hm. apply assoc_aset_other. intro E. subst sub. congruence.
+    - apply on_client_inv in H as [(_ & -> & _)|(c & c' & Hi & Hf & ->)]; auto.
+      apply (map_of_w_set _ _ c); auto.
+      apply step_userinfo_shape in Hf as [->|(rec & d & _ & _ & ->)]; auto.
+    - destruct (state2issuer w st) as [[| | |i| | |]|]; try (inversion H; subst; reflexivity).
+      apply on_client_inv in H as [(_ & -> & _)|(c & c' & Hi & Hf & ->)]; auto.
+      apply (map_of_w_set _ _ c); auto.
+      apply step_token_shape in Hf as [->|(rec & stored & _ & _ & _ & _ & [->|(sub & t & Ht & Hsub & ->)])]; auto.
+      rewrite Ht in Hm. apply assoc_aset_other. intro E. subst sub. congruence.
+  Qed.
+
+  (* an operation only ever touches the client it is executed on *)
+  Theorem step_frame_client w o w' out j :
+    step lhash w o = (w', out) -> op_target w o <> Some j -> assoc j w' = assoc j w.
+  Proof.
+    intros H Ht.
+    assert (Hset : forall i c', i <> j -> assoc j (w_set w i c') = assoc j w)
+      by (intros; apply assoc_aset_other; auto).
+    destruct o as [i st nonce req|i r now|i st r now|i st u|st r now]; cbn [step op_target] in *.
+    - destruct (assoc i w); inversion H; subst; auto. apply Hset. congruence.
+    - apply on_client_inv in H as [(_ & -> & _)|(c & c' & _ & _ & ->)]; auto. apply Hset. congruence.
+    - apply on_client_inv in H as [(_ & -> & _)|(c & c' & _ & _ & ->)]; auto. apply Hset. congruence.
+    - apply on_client_inv in H as [(_ & -> & _)|(c & c' & _ & _ & ->)]; auto. apply Hset. congruence.
+    - destruct (state2issuer w st) as [[| | |i| | |]|]; try (inversion H; subst; reflexivity).
+      apply on_client_inv in H as [(_ & -> & _)|(c & c' & _ & _ & ->)]; auto. apply Hset. congruence.
+  Qed.
+
+  (* a refused operation changes nothing at all *)
+  Theorem step_reject w o w' out :
+    step lhash w o = (w', out) -> (forall d, out <> Ok d) -> w' = w.
+  Proof.
+    intros H Hno. destruct o as [i st nonce req|i r now|i st r now|i st u|st r now]; cbn [step] in *.
+    - destruct (assoc i w); inversion H; subst; auto. exfalso. eapply Hno; reflexivity.
+    - apply on_client_inv in H as [(_ & -> & _)|(c & c' & Hi & Hf & ->)]; auto.
+      apply step_authz_reject in Hf; auto. subst. apply w_set_same; auto.
+    - apply on_client_inv in H as [(_ & -> & _)|(c & c' & Hi & Hf & ->)]; auto.
+      apply step_token_reject in Hf; auto. subst. apply w_set_same; auto.
+    - apply on_client_inv in H as [(_ & -> & _)|(c & c' & Hi & Hf & ->)]; auto.
+      apply step_userinfo_reject in Hf; auto. subst. apply w_set_same; auto.
+    - destruct (state2issuer w st) as [[| | |i| | |]|]; try (inversion H; subst; reflexivity).
+      apply on_client_inv in H as [(_ & -> & _)|(c & c' & Hi & Hf & ->)]; auto.
+      apply step_token_reject in Hf; auto. subst. apply w_set_same; auto.
+  Qed.
+
+  (* ---- histories ---- *)
+  Theorem run_frame_db : forall ops w j s,
+    (forall o, In o ops -> op_mentions o s = false) -> rec_of (run lhash w ops) j s = rec_of w j s.
+  Proof.
+    induction ops as [|o r IH]; intros w j s Hall; [reflexivity|].
+    cbn [run]. rewrite IH by (intros; apply Hall; now right).
+    destruct (step lhash w o) as [w1 out] eqn:E. cbn [fst].
+    eapply step_frame_db; eauto. apply Hall. now left.
+  Qed.
+
+  Theorem run_frame_map : forall ops w j k,
+    (forall o, In o ops -> op_may_bind o k = false) -> map_of (run lhash w ops) j k = map_of w j k.
+  Proof.
+    induction ops as [|o r IH]; intros w j k Hall; [reflexivity|].
+    cbn [run]. rewrite IH by (intros; apply Hall; now right).
+    destruct (step lhash w o) as [w1 out] eqn:E. cbn [fst].
+    eapply step_frame_map; eauto. apply Hall. now left.
+  Qed.
+
+  (* every record a client holds belongs to a state this relying party issued for that issuer *)
+  Definition states_issued (w : list (pystr * client)) (L : list (pystr * pystr)) : Prop :=
+    forall i c st, assoc i w = Some c -> has_key st (cl_db c) = true -> In (i, st) L.
+
+  Lemma has_key_db_update db st info s rec :
+    db_get db st = Ok rec -> has_key s (db_update db st info) = true -> has_key s db = true.
+  Proof.
+    intros Hg H. unfold db_get in Hg. destruct (assoc st db) as [[|x r]|] eqn:Ea; try discriminate.
+    destruct (str_eqb s st) eqn:E.
+    - apply str_eqb_eq in E. subst. unfold has_key. now rewrite Ea.
+    - unfold has_key in *. rewrite db_update_other in H; auto. intro; subst. rewrite str_eqb_refl in E. discriminate.
+  Qed.
+
+  Lemma states_issued_w_set w L i c c' :
+    states_issued w L -> assoc i w = Some c ->
+    (forall s, has_key s (cl_db c') = true -> has_key s (cl_db c) = true) ->
+    states_issued (w_set w i c') L.
+  Proof.
+    intros Hinv Hi Hsub j cj st Hj Hk. unfold w_set in Hj. destruct (str_eqb i j) eqn:E.
+    - apply str_eqb_eq in E. subst j. rewrite assoc_aset_same in Hj. inversion Hj; subst cj. eapply Hinv; eauto.
+    - rewrite assoc_aset_other in Hj; [eapply Hinv; eauto|]. intro; subst. rewrite str_eqb_refl in E. discriminate.
+  Qed.
+
+  Lemma step_states_issued w o w' out L :
+    states_issued w L -> step lhash w o = (w', out) -> states_issued w' (L ++ issued [o]).
+  Proof.
+    intros Hinv H.
+    assert (Hweak : forall w0, states_issued w0 L -> states_issued w0 (L ++ issued [o])).
+    { intros w0 H0 i c st Hi Hk. apply in_or_app. left. eapply H0; eauto. }
+    destruct o as [i st nonce req|i r now|i st r now|i st u|st r now]; cbn [step] in *.
+    - destruct (assoc i w) as [c|] eqn:Ei; inversion H; subst; [|apply Hweak; exact Hinv].
+      intros j cj s Hj Hk. cbn [issued]. unfold w_set in Hj. destruct (str_eqb i j) eqn:E.
+      + apply str_eqb_eq in E. subst j. rewrite assoc_aset_same in Hj. inversion Hj; subst cj.
+        cbn [step_begin cl_db] in Hk. destruct (str_eqb s st) eqn:Es.
+        * apply str_eqb_eq in Es. subst. apply in_or_app. right. now left.
+        * apply in_or_app. left. eapply Hinv; eauto. unfold has_key in *.
+          rewrite assoc_aset_other in Hk; auto. intro; subst. rewrite str_eqb_refl in Es. discriminate.
+      + rewrite assoc_aset_other in Hj; [|intro; subst; rewrite str_eqb_refl in E; discriminate].
+        apply in_or_app. left. eapply Hinv; eauto.
+    - apply Hweak. apply on_client_inv in H as [(_ & -> & _)|(c & c' & Hi & Hf & ->)]; auto.
+      eapply states_issued_w_set; eauto.
+      apply step_authz_shape in Hf as [->|(st & rec & stored & Hrec & _ & _ & ->)]; auto.
+      cbn [cl_db]. intros s. eapply has_key_db_update; eauto.
+    - apply Hweak. apply on_client_inv in H as [(_ & -> & _)|(c & c' & Hi & Hf & ->)]; auto.
+      eapply states_issued_w_set; eauto.
+      apply step_token_shape in Hf as [->|(rec & stored & Hrec & _ & _ & Hdb & _)]; auto.
+      rewrite Hdb. intros s. eapply has_key_db_update; eauto.
+    - apply Hweak. apply on_client_inv in H as [(_ & -> & _)|(c & c' & Hi & Hf & ->)]; auto.
+      eapply states_issued_w_set; eauto.
+      apply step_userinfo_shape in Hf as [->|(rec & d & Hrec & _ & ->)]; auto.
+      cbn [cl_db]. intros s. eapply has_key_db_update; eauto.
+    - apply Hweak. destruct (state2issuer w st) as [[| | |i| | |]|]; try (inversion H; subst; exact Hinv).
+      apply on_client_inv in H as [(_ & -> & _)|(c & c' & Hi & Hf & ->)]; auto.
+      eapply states_issued_w_set; eauto.
+      apply step_token_shape in Hf as [->|(rec & stored & Hrec & _ & _ & Hdb & _)]; auto.
+      rewrite Hdb. intros s. eapply has_key_db_update; eauto.
+  Qed.
+
+  Lemma issued_app a b : issued (a ++ b) = (issued a ++ issued b)%list.
+  Proof. induction a as [|o r IH]; cbn; [reflexivity|]. destruct o; cbn; rewrite IH; reflexivity. Qed.
+
+  Lemma run_states_issued : forall ops w L,
+    states_issued w L -> states_issued (run lhash w ops) (L ++ issued ops).
+  Proof.
+    induction ops as [|o r IH]; intros w L Hinv.
+    - cbn. rewrite app_nil_r. exact Hinv.
+    - cbn [run]. destruct (step lhash w o) as [w1 out] eqn:E. cbn [fst].
+      change (o :: r) with ([o] ++ r)%list. rewrite issued_app, app_assoc.
+      apply IH. eapply step_states_issued; eauto.
+  Qed.
+
+  Lemma init_world_empty cfgs : states_issued (init_world cfgs) [].
+  Proof.
+    intros i c st Hi Hk. unfold init_world in Hi.
+    induction cfgs as [|[j cf] r IH]; cbn in Hi; [discriminate|].
+    destruct (str_eqb i j); [inversion Hi; subst; cbn in Hk; discriminate|auto].
+  Qed.
+
+  Theorem history_states_issued cfgs ops i c st :
+    assoc i (run lhash (init_world cfgs) ops) = Some c -> has_key st (cl_db c) = true -> In (i, st) (issued ops).
+  Proof.
+    intros Hi Hk. pose proof (run_states_issued ops _ _ (init_world_empty cfgs)) as Hinv.
+    cbn [app] in Hinv. eapply Hinv; eauto.
+  Qed.
+
+  (* in every history, an accepted authorization response carries a state this RP issued earlier for the
+     very issuer whose client processed it *)
+  Theorem history_authz_own cfgs pre i r now w' stored :
+    step lhash (run lhash (init_world cfgs) pre) (OAuthz i r now) = (w', Ok stored) ->
+    has_key (PS "error") stored = false ->
+    exists st c rec, assoc (PS "state") stored = Some (VStr st) /\ In (i, st) (issued pre) /\
+      assoc i (run lhash (init_world cfgs) pre) = Some c /\ db_get (cl_db c) st = Ok rec /\
+      assoc (PS "iss") rec = Some (VStr (eff_issuer (cl_cfg c))).
+  Proof.
+    intros H Herr. cbn [step] in H.
+    apply on_client_inv in H as [(_ & _ & Hout)|(c & c' & Hi & Hf & Hw)].
+    - discriminate.
+    - destruct (step_authz_accept lhash _ _ _ _ _ Hf Herr) as (st & rec & Hst & Hrec & Hiss & _).
+      exists st, c, rec. repeat split; auto.
+      eapply history_states_issued; eauto. unfold db_get in Hrec. unfold has_key.
+      destruct (assoc st (cl_db c)) as [[|x l]|]; try discriminate. reflexivity.
+  Qed.
+End World.
+
+(* ---- corollaries that read the client configuration instead of the verify kwargs ---- *)
+Section Service.
+  Variable lhash : pystr -> pystr -> pystr.
+
+  (* the registered signing algorithm, when the client has a registration response naming one, is enforced *)
+  Theorem service_expected_alg c r now c' stored v a :
+    step_authz lhash c r now = (c', Ok stored) -> has_key (PS "error") stored = false ->
+    assoc (verified_name (PS "id_token")) stored = Some v ->
+    cf_reg_sigalg (cl_cfg c) = Some a -> a <> [] ->
+    exists t, r_idt r = Some t /\ (t_alg t = a \/ t_alg t = PS "none").
+  Proof.
+    intros H Herr Hv Ha Hne.
+    destruct (step_authz_accept lhash _ _ _ _ _ H Herr) as (st & rec & _ & _ & _ & _ & _ & _ & Hver).
+    destruct (Hver v Hv) as (t & code & atok & vd & Ht & _ & Hvd & _).
+    exists t. split; [exact Ht|].
+    apply verify_id_token_stages in Hvd as (signed & Hp & Hsig & _).
+    destruct signed.
+    - left. destruct (Hsig eq_refl) as [_ Hs].
+      apply sig_accepted_inv in Hs as (? & ? & ? & _ & _ & _ & _ & Hexp). apply Hexp; auto.
+    - right. apply alg_policy_inv in Hp as [Hp0 _]. apply Hp0. reflexivity.
+  Qed.
+End Service.
+
+Section WorldAccept.
+  Variable lhash : pystr -> pystr -> pystr.
+
+  (* an accepted authorization response: its state is a record of the very client it was delivered to, that
+     record was created for this client's issuer, and iss / client_id response parameters are this client's *)
+  Theorem world_authz_own w i r now w' stored :
+    step lhash w (OAuthz i r now) = (w', Ok stored) -> has_key (PS "error") stored = false ->
+    exists c st rec,
+      assoc i w = Some c /\
+      assoc (PS "state") stored = Some (VStr st) /\
+      db_get (cl_db c) st = Ok rec /\
+      assoc (PS "iss") rec = Some (VStr (eff_issuer (cl_cfg c))) /\
+      (forall v, assoc (PS "iss") stored = Some v -> v = VStr (cf_issuer (cl_cfg c))) /\
+      (cf_client_id (cl_cfg c) <> [] ->
+       forall v, assoc (PS "client_id") stored = Some v -> v = VStr (cf_client_id (cl_cfg c))) /\
+      w' = w_set w i (mkClient (cl_cfg c) (db_update (cl_db c) st stored) (cl_map c)).
+  Proof.
+    intros H Herr. cbn [step] in H.
+    apply on_client_inv in H as [(_ & _ & Hout)|(c & c' & Hi & Hf & Hw)]; [discriminate|].
+    destruct (step_authz_accept lhash _ _ _ _ _ Hf Herr) as (st & rec & Hst & Hrec & Hiss & Hip & Hcp & Hc' & _).
+    exists c, st, rec. repeat split; auto. congruence.
+  Qed.
+
+  (* an accepted token response with an ID token: the token's nonce is bound, in the very client that asked,
+     to the very state the tokens were requested for *)
+  Theorem world_token_nonce w i st r now w' stored v :
+    step lhash w (OToken i st r now) = (w', Ok stored) ->
+    assoc (verified_name (PS "id_token")) stored = Some v ->
+    exists vd n, v = VDict vd /\ assoc (PS "nonce") vd = Some (VStr n) /\ map_of w i n = Some st.
+  Proof.
+    intros H Hv. cbn [step] in H.
+    apply on_client_inv in H as [(_ & _ & Hout)|(c & c' & Hi & Hf & Hw)]; [discriminate|].
+    destruct (step_token_accept lhash _ _ _ _ _ _ Hf) as (rec & _ & _ & _ & Hver & _).
+    destruct (Hver v Hv) as (t & vd & n & sub & _ & -> & _ & Hn & Hmap & _).
+    exists vd, n. repeat split; auto. unfold map_of. rewrite Hi. exact Hmap.
+  Qed.
+
+End WorldAccept.
